@@ -517,21 +517,21 @@ Section PipelineFull.
   Hypothesis Honeof : oneof_no_defaults S = true.
 
   Lemma norm_value_ext : forall vd ms ms', obj_get (vd_name vd) ms = obj_get (vd_name vd) ms' ->
-                                           norm_value q S vd ms = norm_value q S vd ms'.
+                                           norm_value S vd ms = norm_value S vd ms'.
   Proof. intros. unfold norm_value. rewrite H. reflexivity. Qed.
 
   Definition var_result (ms ms3 : list (bytes * json)) (vd : vardef) : Prop :=
-    match norm_value q S vd ms with
+    match norm_value S vd ms with
     | None => obj_get (vd_name vd) ms3 = None
     | Some u => exists nv, obj_get (vd_name vd) ms3 = Some nv
                            /\ coercible_j d S nv (vd_type vd) = coercible_j d S u (vd_type vd)
     end.
   (* what a normalisation error means for the variable it stopped at *)
   Definition var_bad (ms : list (bytes * json)) (vd : vardef) : Prop :=
-    coercible d S (vd_type vd) false (norm_value q S vd ms) = false.
+    coercible d S (vd_type vd) false (norm_value S vd ms) = false.
 
   Lemma norm_var_ok : forall vd ms,
-      var_default_ok q S d vd = true -> json_nodup (JObj ms) = true ->
+      var_default_ok S dfull vd = true -> json_nodup (JObj ms) = true ->
       match norm_var q S reparse vd ms with
       | NOk ms3 => json_nodup (JObj ms3) = true
                    /\ (forall k, k <> vd_name vd -> obj_get k ms3 = obj_get k ms)
@@ -542,18 +542,17 @@ Section PipelineFull.
       end.
   Proof.
     intros vd ms Hd Hn.
-    pose proof (norm_var_ni_nodup q S d vd ms Hd Hn) as Hn2.
+    pose proof (norm_var_ni_nodup q S dfull vd ms Hd Hn) as Hn2.
     pose proof (norm_var_ni_same q S vd ms) as Hsame.
     pose proof (norm_var_ni_other q S vd ms) as Hother.
     unfold norm_var.
-    change (extract_default q vd
-              match obj_get (vd_name vd) ms with
-              | Some v => set_member (vd_name vd) (coerce_j S v (vd_type vd)) ms
-              | None => ms
-              end) with (norm_var_ni q S vd ms).
+    change (match obj_get (vd_name vd) (extract_default q vd ms) with
+            | Some v => set_member (vd_name vd) (coerce_j S v (vd_type vd)) (extract_default q vd ms)
+            | None => extract_default q vd ms
+            end) with (norm_var_ni q S vd ms).
     set (ms2 := norm_var_ni q S vd ms) in *.
     unfold var_result, var_bad.
-    rewrite Hsame. destruct (norm_value q S vd ms) as [u|] eqn:Enu.
+    rewrite Hsame. destruct (norm_value S vd ms) as [u|] eqn:Enu.
     2:{ repeat split; auto. }
     assert (Hnu : json_nodup u = true).
     { rewrite json_nodup_obj in Hn2. apply andb_true_iff in Hn2. destruct Hn2 as [_ Hv]. rewrite forallb_forall in Hv.
@@ -581,7 +580,7 @@ Section PipelineFull.
 
   Lemma normalise_ok : forall vds ms,
       NoDup (map vd_name vds) ->
-      forallb (var_default_ok q S d) vds = true -> json_nodup (JObj ms) = true ->
+      forallb (var_default_ok S dfull) vds = true -> json_nodup (JObj ms) = true ->
       match normalise q S reparse vds ms with
       | NOk ms' => json_nodup (JObj ms') = true
                    /\ (forall k, ~ In k (map vd_name vds) -> obj_get k ms' = obj_get k ms)
@@ -615,21 +614,22 @@ Section PipelineFull.
 
   (* the strict reading of what the validator will find = the full reading of the request *)
   Lemma norm_value_coercible : forall vd ms,
-      var_default_ok q S d vd = true ->
-      coercible d S (vd_type vd) false (norm_value q S vd ms) = coercible_var dfull S (JObj ms) vd.
+      var_default_ok S dfull vd = true ->
+      coercible d S (vd_type vd) false (norm_value S vd ms) = coercible_var dfull S (JObj ms) vd.
   Proof.
     intros vd ms Hd. unfold coercible_var, coercible, vd_hasdef, norm_value. simpl.
     destruct (obj_get (vd_name vd) ms) as [v|].
     - apply coerce_correct.
     - unfold var_default_ok in Hd. destruct (vd_default vd) as [dv|]; simpl; auto.
-      apply andb_true_iff in Hd. tauto.
+      apply andb_true_iff in Hd. destruct Hd as [_ Hd].
+      unfold d, dialect_of. rewrite coerce_correct. unfold dfull in Hd. rewrite coercible_extracted_full. exact Hd.
   Qed.
 
   Theorem pipeline_full_iff_coercible : forall vds ms,
       json_nodup (JObj ms) = true ->
       vars_nodup vds = true ->
       no_upload_ref S vds = true ->
-      forallb (var_default_ok q S d) vds = true ->
+      forallb (var_default_ok S dfull) vds = true ->
       normalise q S reparse vds ms <> NFuel ->
       (accepts q S reparse vds (JObj ms) = true <-> coercible_all dfull S vds (JObj ms) = true).
   Proof.
@@ -659,7 +659,7 @@ Section PipelineFull.
       rewrite <- (norm_value_coercible vd ms) by (rewrite forallb_forall in Hdef; auto).
       specialize (Hres vd Hin). unfold var_result in Hres.
       unfold coercible_var, coercible, strip_default, vd_hasdef. simpl.
-      destruct (norm_value q S vd ms) as [u|].
+      destruct (norm_value S vd ms) as [u|].
       - destruct Hres as [nv [-> Hc]]. exact Hc.
       - rewrite Hres. reflexivity. }
     rewrite Heq in Hval. rewrite <- Hval.
